@@ -236,6 +236,64 @@ func (w *descWalker) class1(v ssa.Value) descClass {
 
 // decreasingParam parses "struct(name)" / "visited(name)" from a decreases clause.
 func decreasingParam(ct *Contract, fn *ssa.Function) (kind string, idx int) {
+	kind, idx = declaredDecreasingParam(ct, fn)
+	if idx == -1 && (kind == "" || kind == "tree") {
+		// no clause, or a clause naming a parameter that no longer exists (renamed): a directly recursive
+		// function whose every self-call passes a strict component of one and the same parameter carries
+		// its measure in the code; use that parameter
+		if i := inferDecreasingParam(fn); i >= 0 {
+			return "tree", i
+		}
+	}
+	return kind, idx
+}
+
+// inferDecreasingParam: index of a parameter such that every recursive call of fn is a call of fn itself
+// and passes, for that parameter, a strictly smaller value derived from it; -1 if there is none.
+func inferDecreasingParam(fn *ssa.Function) int {
+	type site struct{ c *ssa.CallCommon }
+	var sites []site
+	for _, b := range fn.Blocks {
+		for _, in := range b.Instrs {
+			var c *ssa.CallCommon
+			switch x := in.(type) {
+			case *ssa.Call:
+				c = x.Common()
+			case *ssa.Go:
+				c = x.Common()
+			case *ssa.Defer:
+				c = x.Common()
+			}
+			if c != nil && c.StaticCallee() == fn {
+				sites = append(sites, site{c})
+			}
+		}
+	}
+	if len(sites) == 0 {
+		return -1 // recursion through other functions: needs declared measures
+	}
+	for i := range fn.Params {
+		w := &descWalker{fn: fn, memo: map[ssa.Value]descClass{}}
+		ok := true
+		for _, st := range sites {
+			if i >= len(st.c.Args) {
+				ok = false
+				break
+			}
+			cl := w.class(st.c.Args[i])
+			if cl.rel == dUnknown || cl.rel == dEQ || cl.param != i {
+				ok = false
+				break
+			}
+		}
+		if ok {
+			return i
+		}
+	}
+	return -1
+}
+
+func declaredDecreasingParam(ct *Contract, fn *ssa.Function) (kind string, idx int) {
 	if ct == nil || ct.Decreases == nil {
 		return "", -1
 	}
@@ -246,6 +304,11 @@ func decreasingParam(ct *Contract, fn *ssa.Function) (kind string, idx int) {
 			for i, p := range fn.Params {
 				if p.Name() == name {
 					return k, i
+				}
+			}
+			for i, pn := range ct.ParamNames {
+				if pn == name && i < len(fn.Params) {
+					return k, i // the contract's positional name for a parameter that was renamed
 				}
 			}
 			if k == "visited" && strings.Contains(name, ".") {
